@@ -196,9 +196,22 @@ def family_tree(rnd, n, quick=False):
             return outline(blocks, rtags(0.3))
         return scenario([rnd.choice(outcomes) for _ in range(rnd.randint(1, 2))], rtags())
 
+    def routline():
+        nst = rnd.randint(1, 2)
+        return outline([(rtags(0.3), [[rnd.choice(outcomes) for _ in range(nst)] for _ in range(rnd.randint(1, 2))])], rtags(0.3))
+
     for _ in range(n):
         feats = []
         for _f in range(rnd.randint(1, 2)):
+            if rnd.random() < 0.12:
+                # outline-only feature whose background steps carry outline placeholders (rendered per row)
+                its = [routline()] if rnd.random() < 0.6 else []
+                its.append(rule([routline() for _ in range(rnd.randint(1, 2))], rtags(),
+                                bg=[rnd.choice(["pass", "pass", "fail"])] if rnd.random() < 0.6 else None))
+                ft = feature(its, rtags(), bg=[rnd.choice(["pass", "pass", "error"]) for _ in range(rnd.randint(1, 2))])
+                ft["pbg"] = True
+                feats.append(ft)
+                continue
             its = [rsc() for _ in range(rnd.randint(1, 2))]
             if rnd.random() < 0.45:
                 its.append(rule([rsc() for _ in range(rnd.randint(1, 2))], rtags(),
